@@ -36,8 +36,8 @@ class C06(Prop):
                   "whose keys carry one hash per class passes spec_ok (C06_spec_ok_on_model) and spec_ok = true implies agreement with the single-map replay "
                   "(C06_spec_ok_sound; the converse is not stated). Tied to /repo by "
                   "replaying histories and schedules on the real code (key pools from distinct allocations and storage-aliased families: slices of one static buffer) "
-                  "plus four oracle engines (free-running stress; key-side state racing registry operations; bulk history over aliased keys; panicking closures / "
-                  "poisoned locks incl. panicking retain predicates and visit callbacks).")
+                  "plus five oracle engines (free-running stress; key-side state racing registry operations; bulk history over aliased keys; panicking closures / "
+                  "poisoned locks incl. panicking retain predicates and visit callbacks; bulk histories on registries keyed by other Hashable key types).")
     level_note = ("SC interleaving at lock granularity: RwLock and hashbrown are trusted to give mutual exclusion / map semantics (a shard is an "
                   "association list searched by (hash, ==)). retain/clear/visit are modelled as the code is: one shard lock after the other, so "
                   "they are not atomic over the registry (the reference machine sweeps the single map band by band in the same way). The executable "
@@ -49,7 +49,9 @@ class C06(Prop):
                   "contract). For C06 that race is covered by the keyrace engine only (directed schedules over sites 301-306 and free-running rounds on "
                   "the real registry, judged by an oracle, not compared with the Coq model). Panicking closures: only get_or_create's closure is a model operation "
                   "(both paths); a retain predicate or visit callback that panics midway is judged by the panics engine's reference map only (its effect depends "
-                  "on hashbrown's iteration order).")
+                  "on hashbrown's iteration order). Key types other than metrics::Key (DefaultHashable<String / u64 / (u64, String)>, a hand-written weak-hash "
+                  "Hashable type): the model is generic in the key under key_contract; for these types the contract (hashable() equal for equal keys, and the "
+                  "map's view consistent with it across insertions and resizes) is checked per run by the genkeys engine only.")
     rule = ("histories: 1 thread, 4-14 calls over 2-5 key classes (variants = equal keys built differently incl. two labels sharing a name in either "
             "order and identical labels; same-name pairs inside 3+ labels are distinct classes; classes chosen to collide in one "
             "shard half of the time), all three kinds, every call kind; exhaustive schedules of {2 creators}, {creator || create;delete}, "
@@ -576,6 +578,22 @@ class C06(Prop):
                             "operations on every shard, judged by a reference map: a get / delete / visit was not truthful, a retain did not offer every live "
                             "entry exactly once to its predicate, or clear left entries behind", dict(observed=line, stderr=err[-500:], cmd=cmd)))
                 break
+        # other key types (the registry is generic in K: Hashable), judged by a reference map
+        gk, go = (4000, 30000) if ctx["tier"] == "quick" else (12000, 200000)
+        gruns = []
+        for rep_ in range(2):
+            cmd = "GENKEYS %d %d %d" % (gk, go, ctx["seed"] * 2 + rep_)
+            rc, outs, err = core.run_impl(ctx["binpath"], [cmd], timeout=900)
+            line = outs[0] if outs else ""
+            gruns.append(line)
+            if rc != 0 or not line.startswith("GENKEYS ok=1 "):
+                out.append(("genkeys", "bulk histories (get_or_create / get / delete / retain / clear / visit / handles, every shard's table resizing several times) on "
+                            "registries keyed by DefaultHashable<String>, DefaultHashable<u64>, DefaultHashable<(u64, String)> and a hand-written Hashable key type with "
+                            "a weak hash, judged by a reference map keyed by contents: equal keys did not have equal hashable(), or a get_or_create / get / delete / "
+                            "retain / visit / handles result was not the single map's (a second storage for one key, a key listed twice, delete untruthful)",
+                            dict(observed=line, stderr=err[-500:], cmd=cmd)))
+                break
+        ctx["coverage"]["genkeys_runs"] = gruns
         ctx["coverage"]["panics_runs"] = pruns
         ctx["coverage"]["panicking_closures_in_replayed_cases"] = self._panic_stats
         ctx["coverage"]["alias_bulk_runs"] = aruns
